@@ -2,7 +2,7 @@
    (section/hit_objects/decode.rs) that do not depend on the concrete
    hit-object type: the stable sort by start time, the break post-processing
    loop, and the slider velocity formula. *)
-From RM Require Export Model.Floats.
+From RM Require Export Model.Floats Model.Sections.
 From RM Require Import Gen.Generated.
 
 (* ---------- std: slice::sort_by is a stable sort ---------- *)
@@ -26,8 +26,6 @@ End Sort.
 
 (* ---------- HitObjectsState::post_process_breaks ---------- *)
 
-Record BreakPeriod := mkBreak { bk_start : F64; bk_end : F64 }.
-
 Section Breaks.
   Context {O : Type} (start : O -> F64) (force : O -> bool -> O).
   (* [force h b]: h.new_combo |= b  (no effect on hold notes) *)
@@ -35,7 +33,7 @@ Section Breaks.
   (* the inner `while`: drop breaks whose end is before the object's start *)
   Fixpoint skip_breaks (bs : list BreakPeriod) (t : F64) (forced : bool) : list BreakPeriod * bool :=
     match bs with
-    | b :: r => if D.lt (bk_end b) t then skip_breaks r t true else (bs, forced)
+    | b :: r => if D.lt (bp_end b) t then skip_breaks r t true else (bs, forced)
     | [] => ([], forced)
     end.
 
